@@ -78,6 +78,12 @@ fn run_case(ctx: &Ctx, index: u64, rep: &mut Report) {
                 sess.call(Op::Line("20 DATA a, b, c, d, e, f".into()));
                 let out = sess.run_line("RUN", 200);
                 let runtime_failed = !out.res.is_ok();
+                // the converse direction is stated for lines without a conditional only
+                let has_conditional = body.contains("IF ");
+                if nerr > 0 && has_conditional {
+                    rep.count("lines.rejected_with_conditional_not_judged");
+                    continue;
+                }
                 if nerr > 0 {
                     rep.count("lines.rejected_by_analyzer");
                     if !runtime_failed {
@@ -116,7 +122,19 @@ fn run_case(ctx: &Ctx, index: u64, rep: &mut Report) {
                 failure_permille: 0, kf_permille: 25, undeclared: true, ..GenOpts::default()
             };
             let g = prog::generate(&mut rng, &opts);
-            let text = g.prog.text();
+            // the order of the lines in the file is not the order of the program: half of the files are shuffled
+            // (the analyzer must still see every DEF before the calls that follow it in line-number order)
+            let text = if rng.coin() {
+                let mut lines = g.prog.text_lines();
+                for i in (1..lines.len()).rev() {
+                    let j = rng.usize(i + 1);
+                    lines.swap(i, j);
+                }
+                rep.count("programs.file_order_shuffled");
+                lines.join("\n")
+            } else {
+                g.prog.text()
+            };
             let (nerr, _first) = match analysis_errors(&text) {
                 Ok(x) => x,
                 Err(m) => {
@@ -182,8 +200,8 @@ fn run_case(ctx: &Ctx, index: u64, rep: &mut Report) {
 
 fn finalize(_tier: Tier, rep: &mut Report) -> Finalize {
     Finalize {
-        rule: "lines: G-stmt lines of 1-3 straight-line statements (assignments to scalars and cells with/without $, PRINT, DIM, FOR..TO..STEP, READ, RESTORE, DATA, REM; operands of every kind at every operator tier incl. chained comparisons, AND/OR/NOT over strings, unary + and -), 45% with one or two typing or syntax mistakes; `10 <line>` is analysed and, independently, run on a fresh interpreter (with a DATA line for READ): analyzer error => the run must fail; analyzer clean => the run must not fail with SYNTAX / TYPE MISMATCH / UNDEF'D STATEMENT. \
-               programs: G-prog programs whose IF conditions mostly test Z1..Zk (k <= 4) read by INPUT on the first line, with typing mistakes injected at 4% of assignments; analysis-clean programs are executed under all 2^k reply vectors and must never end in one of the three error kinds. \
+        rule: "lines: G-stmt lines of 1-3 straight-line statements (assignments to scalars and cells with/without $, PRINT, DIM, FOR..TO..STEP, READ, RESTORE, DATA, REM; operands of every kind at every operator tier incl. chained comparisons, AND/OR/NOT over strings, unary + and -), 45% with one or two typing or syntax mistakes (incl. an ELSE that belongs to no IF and an ELSE after a multi-statement THEN clause); a tenth of the lines wrap a statement in an IF with a constant condition (judged in the first direction only); `10 <line>` is analysed and, independently, run on a fresh interpreter (with a DATA line for READ): analyzer error => the run must fail; analyzer clean => the run must not fail with SYNTAX / TYPE MISMATCH / UNDEF'D STATEMENT. \
+               programs: G-prog programs whose IF conditions mostly test Z1..Zk (k <= 4) read by INPUT on the first line, with typing mistakes injected at 4% of assignments, half of the files with their lines in shuffled order; analysis-clean programs are executed under all 2^k reply vectors and must never end in one of the three error kinds. \
                Non-trivial: a line that mixes string and numeric operands; a program with >= 2 forced condition variables. Distinct by hash of the text.".into(),
         floors: vec![
             ("lines.rejected_by_analyzer".into(), 50_000),
